@@ -2,7 +2,7 @@
 //!
 //! One NDJSON event per traversal / buffering / output step is appended to the file named by
 //! `$FSELECT_VERIF_TRACE`; nothing happens when the variable is unset. The events are consumed by
-//! the trace specifications under /verif/spec (Trace_Walker, Trace_Writer).
+//! the trace specifications under /verif/spec (Trace_Walker, Trace_WalkerL, Trace_Pipeline).
 
 use std::fs::OpenOptions;
 use std::io::Write;
